@@ -92,6 +92,7 @@ def infer (m : Module) (f : Fn) (prev : Array Sh) (e : Expr) : Sh :=
     match g h with
     | .scalar _ w => .scalar k (match conv with | some w' => w' | none => w)
     | .vector n _ w => .vector n k (match conv with | some w' => w' | none => w)
+    | .matrix c r _ w => .matrix c r k (match conv with | some w' => w' | none => w)
     | s => s
   | .load p =>
     match f.exprs[p]? with
